@@ -5,7 +5,48 @@ mod prog;
 mod rec;
 mod sets;
 
+/// `C05_PROG="<set> ; <program>" h-c05 …`: run one field-chip program (replay / debugging).
+fn single(prog: &str) {
+    let (set, rest) = prog.split_once(" ; ").expect("set ; program");
+    let ops: Vec<prog::Op> = rest
+        .split(" ; ")
+        .map(|t| {
+            let mut w = t.split_whitespace();
+            let name: &'static str = Box::leak(w.next().unwrap().to_string().into_boxed_str());
+            prog::Op { name, args: w.map(|x| x.to_string()).collect() }
+        })
+        .collect();
+    macro_rules! one {
+        ($name:expr, $F:ty, $K:ty) => {
+            if set.trim() == $name {
+                let s = fieldrun::set_info::<$F, $K>($name);
+                let r = prog::reference(&s.m, s.num_bits, &ops);
+                let public: Vec<$F> = r.public.iter().flat_map(|v| prog::pi_encoding::<$F, $K>(v)).collect();
+                let run = fieldrun::mock::<$F, $K>(&ops, &public, 11);
+                println!("reference sat: {}", r.sat);
+                println!("verdict: {:?} (k = {})", run.verdict, run.k);
+                for (i, o) in run.outcome.outs.iter().enumerate() {
+                    println!("  op {i} [{} {}] -> {o}", ops[i].name, ops[i].args.join(" "));
+                }
+                println!("stopped: {:?}", run.outcome.stopped);
+                if let Some(p) = &run.prover {
+                    if let Err(es) = p.verify() {
+                        for e in es.iter().take(5) {
+                            println!("  failure: {e:?}");
+                        }
+                    }
+                }
+            }
+        };
+    }
+    for_each_circuit_set!(one);
+}
+
 fn main() {
+    if let Ok(p) = std::env::var("C05_PROG") {
+        single(&p);
+        return;
+    }
     let mut ctx = mzkh::Ctx::from_args("C05");
     bounds::run(&mut ctx);
     macro_rules! one {
